@@ -47,6 +47,8 @@ def run(check):
     check.run_rule('C01.R3', lambda c: rm.rule_tables(
         c, model(), 'C01.R3', ('sound',), 'effect lies in the sound set of every compatible row (tables B2-B4)',
         witness="a result parameter kind/optional-ness the other input cannot honour, e.g. merge(s('a'), s('**k')) must be (*, a)"))
+    from ..rules_derived import rule_lazy_iterators
+    check.run_rule('C01.R3l', lambda c: rule_lazy_iterators(c, 'C01.R3'))
     check.run_rule('C01.R2', lambda c: rm.rule_kwo_and_stars(c, model(), 'C01.R2', ('sound',)))
     check.run_rule('C01.R6', lambda c: rm.concile_table(c, c.repo, {'default': 'C01.R6', 'leftwins': 'C01.R6.base'}) if False else
                    rm.concile_table(c, c.repo, {'sound': 'C01.R6', 'leftwins': 'C01.R6n'}))
